@@ -5,6 +5,7 @@
 //!   vcheck --worker <ID> <tier>       (internal)
 
 pub mod adversary;
+pub mod certs;
 pub mod checks;
 pub mod exec;
 pub mod explore;
